@@ -298,6 +298,9 @@ async def _stmt(cm, block_exc, rec):
         rec["exc"] = exc
 
 
+_FACTORY_KW = {"func": 1, "self": 2, "args": 3, "kwds": 4, "gen": 5}
+
+
 def _run_real(decorator, case):
     X = ExcFactory(case.get("variant"))
     glog, ops = [], []
@@ -309,14 +312,17 @@ def _run_real(decorator, case):
         for j in range(susp):
             await Susp(["g", n, j])
 
-    def func():
+    def func(*args, **kwds):
+        # the factory is called with positional and keyword arguments whose NAMES a wrapper is likely to use itself
+        if args != ("pos",) or kwds != _FACTORY_KW:
+            glog.append("BAD-FACTORY-ARGS %r %r" % (args, kwds))
         holder["gen"] = genf(glog.append, X, suspend)
         return GenProxy(holder["gen"], ops)
 
     block_exc = X(case["block"]) if case["block"] is not None else None
     rec = {}
     try:
-        cm = decorator(func)()
+        cm = decorator(func)("pos", **_FACTORY_KW)
     except BaseException as exc:  # noqa: B036 - decorating/creating must not fail
         return {"error": "creating the context manager failed: %r" % (exc,)}
     res = drive(_stmt(cm, block_exc, rec))
